@@ -155,7 +155,7 @@ theorem compile_obj_defined {m : Model (Ext K)} {t : K} (ht : 0 ≤ t) {maxSteps
     (hm : LogicModel m m.domain) (hsh : AssertShape m) (hok : DeclOK m.domain)
     (ht1 : t < 1 ∨ NoIntVars m.domain) (ρ : String → K) (hs : srcFeasible m ρ = true) :
     ∃ v, eval ρ m.objective = some v := by
-  obtain ⟨an, han, hlin⟩ := (compile_ok_iff m _ maxSteps lm).mp h
+  obtain ⟨_, an, han, hlin⟩ := (compile_ok_iff m _ maxSteps lm).mp h
   obtain ⟨hdom, hbox⟩ := pipeline_hyps_logic ht maxSteps hm hsh hok han ht1
   exact (logicModel_applyToDomain an hdom.tight hm).obj_defined hlin ρ (hdom.sound ρ hs)
 
@@ -165,7 +165,7 @@ theorem compile_feasible_iff_logic {m : Model (Ext K)} {t : K} (ht : 0 ≤ t) {m
     (ht1 : t < 1 ∨ NoIntVars m.domain) (ρ : String → K) :
     srcFeasible m ρ = true ↔
       ∃ ρ' : String → K, (∀ x, inScope m.domain x → ρ' x = ρ x) ∧ linFeasible lm ρ' = true := by
-  obtain ⟨an, han, hlin⟩ := (compile_ok_iff m _ maxSteps lm).mp h
+  obtain ⟨_, an, han, hlin⟩ := (compile_ok_iff m _ maxSteps lm).mp h
   obtain ⟨hdom, hbox⟩ := pipeline_hyps_logic ht maxSteps hm hsh hok han ht1
   rw [logic_feasible_iff (logicModel_applyToDomain an hdom.tight hm) hdom hbox hlin ρ]
   constructor
@@ -183,7 +183,7 @@ theorem compile_objective_logic {m : Model (Ext K)} {t : K} (ht : 0 ≤ t) {maxS
         ∃ w, linObjective lm ρ' = some w ∧ rel (objReq m) w v) ∧
     (∃ ρ' : String → K, (∀ x, inScope m.domain x → ρ' x = ρ x) ∧ linFeasible lm ρ' = true ∧
         linObjective lm ρ' = some v) := by
-  obtain ⟨an, han, hlin⟩ := (compile_ok_iff m _ maxSteps lm).mp h
+  obtain ⟨_, an, han, hlin⟩ := (compile_ok_iff m _ maxSteps lm).mp h
   obtain ⟨hdom, hbox⟩ := pipeline_hyps_logic ht maxSteps hm hsh hok han ht1
   obtain ⟨h1, ρ', hag, hf, ho⟩ :=
     logic_objective (logicModel_applyToDomain an hdom.tight hm) hdom hbox hlin ρ hs v hv
